@@ -364,7 +364,7 @@ pub fn docs_for_slots(sl: &[(String, u8)], level: u8, cap: usize) -> Vec<MObj> {
 pub fn string_patterns(level: u8) -> Vec<&'static str> {
     let mut v = vec!["x", "a*", "*a", "*a*", "*", "?a", "ia", "i*A*", "?^a.*b$"];
     if level >= 1 {
-        v.extend(vec!["i?a", "'*a'", "", "ab", "b*", "*b", "ia*", "i*B", "?.*a.*", "i?^A"]);
+        v.extend(vec!["i?a", "'*a'", "", "ab", "b*", "*b", "ia*", "i*B", "?.*a.*", "i?^A", "i?\\W", "i?^\\D+$"]);
     }
     v
 }
@@ -393,6 +393,7 @@ pub fn list_members(level: u8) -> Vec<Val> {
         st(">1"),
         boolean(true),
         map(vec![e("x", st("a"))]),
+        null(),
     ];
     if level >= 1 {
         v.extend(vec![
@@ -402,7 +403,6 @@ pub fn list_members(level: u8) -> Vec<Val> {
             st("ab"),
             int(2),
             flt(1.5),
-            null(),
             map(vec![e("x", st("b")), e("y", st("b"))]),
             st("ib*"),
             st("i?b"),
@@ -530,6 +530,9 @@ pub fn entry_pool(level: u8) -> Vec<Entry> {
         e("n", map(vec![e("y", st("b"))])),
         e("n.x", st("a")),
         e("not(g)", st("x")),
+        // the same pattern on a second field: merged groups that tie in the optimiser's sorts
+        e("g", st("a*")),
+        e("g", st("?a")),
     ];
     if level >= 1 {
         v.extend(vec![
